@@ -163,6 +163,12 @@ def check_checked(case, ctx):
     h = _impl()
     s = build_checked(case)
     want = b58.decode_check(s)
+    if case["mut"][0] != "none":
+        # history: the genuine string is decoded first, then its corrupted sibling
+        valid = b58.encode_check(case["payload"])
+        st0, got0 = call(h.decode_base58_checksum, valid)
+        if st0 == "exc" or got0 != case["payload"]:
+            raise Violation("C10/checksum/refused-valid", "decode_base58_checksum(%r) -> %r" % (valid[:60], got0))
     st_, got = call(h.decode_base58_checksum, s)
     if want is None:
         ctx.count("invalid")
